@@ -6,7 +6,7 @@ import ast
 
 from vlib.core import AnalysisError, Report
 from vlib.guards import GuardWalker
-from vlib.match import X, deref, inlined_bodies, nodes
+from vlib.match import X, closure, deref, has_call, inlined_bodies, nodes
 from vlib.srcindex import SourceIndex, attr_chain, unparse, walk_no_nested, mangle
 from vlib.typer import Typer
 
@@ -159,8 +159,10 @@ def run(rep: Report, tier: str) -> None:
 	ident.check(has_identity and 'identity' in unparse(gen.node.body[-1] if gen else None) or has_identity and any('identity' in unparse(s) for s in gen.node.body if isinstance(s, ast.Assign) and 'filename' in unparse(s.targets[0])),
 		'symbols:filename-has-identity', gen.where if gen else persistor.where, 'the symbol cache file name no longer carries module.identity()')
 	idf = mod.cls('Module').method('identity')
-	src = unparse(idf.node)
-	ident.check('self.filepath' in src and 'hash' in src and 'imports' in src, 'symbols:identity-covers-self-and-imports', idf.where,
+	icl = closure(idf)
+	own_file = any(isinstance(n, ast.Attribute) and unparse(n) == 'self.filepath' for n in nodes(icl))
+	imports = any(isinstance(n, ast.Attribute) and n.attr == 'imports' for n in nodes(icl))
+	ident.check(own_file and imports and has_call(icl, 'hash'), 'symbols:identity-covers-self-and-imports', idf.where,
 		'Module.identity no longer hashes the module file itself and its direct imports')
 	restore_uses_same = persistor.method('restore'), persistor.method('store'), persistor.method('stored')
 	for m in restore_uses_same:
